@@ -1,8 +1,9 @@
 SPECIFICATION Spec
 CONSTANTS
-  NPos = 6
-  NPosOne = 6
-  NPosScored = 4
+  NPos = 8
+  NPosOne = 8
+  NPosPerfect = 10
+  NPosScored = 6
   ScoreVals = {1, 2}
   MaxOrderVals = {0, 1}
   Variants = {0, 1, 2}
